@@ -9,6 +9,7 @@ RULES = {
     "N3": "update_order answers not-found (Ok(None)) only on a path where a lookup actually missed, and then without any effect",
     "N4": "OrderQueue::remove / pop hand out the payload of their own DashMap::remove (so nobody else can obtain the order afterwards)",
     "N5": "no resurrection: every order a mutator publishes (push) and every counter operand derives from a value the thread owns (its parameter, or the payload of its own removal/pop), never from a lookup or a listing (find / to_vec / iter_orders): a copy taken from a listing may belong to an order whose cancel was acknowledged in between",
+    "N6": "nothing is taken for good without being handed out: an order match_order sets aside (it neither trades nor replenishes) is put back on every exit of the call - otherwise a later cancel / amend of that never-traded order answers not-found although nothing removed it (C06's drain rule on the same paths)",
 }
 
 
@@ -31,3 +32,5 @@ def run(ctx, chk):
     LR.rule_inplace_same_id(ctx, chk, L, "N4")
     Q.rule_remove_find(chk, "N4")
     Q.rule_pop(chk, "N4", "N4", "N4")
+    from . import c06
+    c06.rule_drain(ctx, chk, L, "N6")
